@@ -134,6 +134,12 @@ class Oracle:
     known_models: dict = dataclasses.field(default_factory=dict)
     note: str = ""
     shrink_seconds: float = 120.0
+    # Optional Hypothesis rule-based state machine: `machine(hooks)` returns a
+    # RuleBasedStateMachine subclass that drives the same executor as `check`, records the
+    # operation list it applied as a JSON-able case, and reports through
+    # hooks.done(case, info) / hooks.fail(case, msg, residual).  `strategy` is unused then.
+    machine: Any = None
+    machine_steps: int = 30
 
 
 # ----------------------------------------------------------------------------------
@@ -352,27 +358,30 @@ def run_oracle(prop_id, oracle: Oracle, n_examples, seed_int, active_known, dead
                     t_first_fail[0] = time.time()
                 raise Violation(msg, residual)
 
-        test = given(oracle.strategy)(body)
-        test = settings(
-            max_examples=remaining,
-            database=None,
-            deadline=None,
-            derandomize=False,
-            report_multiple_bugs=False,
-            phases=[Phase.generate, Phase.shrink],
-            suppress_health_check=list(HealthCheck),
-            print_blob=False,
-        )(test)
-        test = hypothesis.seed(derive_seed(seed_int, prop_id, oracle.name, rounds))(test)
         before = stats.generated
-        try:
-            test()
-        except Violation:
-            pass
-        except hypothesis.errors.Flaky:
-            pass
-        except hypothesis.errors.FlakyFailure:
-            pass
+        if oracle.machine is not None:
+            _run_machine(prop_id, oracle, remaining, seed_int, rounds, stats, best, local_known, deadline_ts)
+        else:
+            test = given(oracle.strategy)(body)
+            test = settings(
+                max_examples=remaining,
+                database=None,
+                deadline=None,
+                derandomize=False,
+                report_multiple_bugs=False,
+                phases=[Phase.generate, Phase.shrink],
+                suppress_health_check=list(HealthCheck),
+                print_blob=False,
+            )(test)
+            test = hypothesis.seed(derive_seed(seed_int, prop_id, oracle.name, rounds))(test)
+            try:
+                test()
+            except Violation:
+                pass
+            except hypothesis.errors.Flaky:
+                pass
+            except hypothesis.errors.FlakyFailure:
+                pass
         if best:
             failures.append(
                 {
@@ -396,6 +405,72 @@ def run_oracle(prop_id, oracle: Oracle, n_examples, seed_int, active_known, dead
         else:
             break
     return stats, failures
+
+
+class _Hooks:
+    def __init__(self, oracle, stats, best, local_known, deadline_ts):
+        self.oracle, self.stats, self.best = oracle, stats, best
+        self.local_known, self.deadline_ts = local_known, deadline_ts
+        self.t_first_fail = None
+
+    def over_budget(self):
+        return time.time() > self.deadline_ts or (
+            self.t_first_fail is not None and time.time() - self.t_first_fail > self.oracle.shrink_seconds
+        )
+
+    def excluded(self, case):
+        return self.oracle.classify(case) in self.local_known
+
+    def done(self, case, info):
+        if self.t_first_fail is not None:
+            self.stats.shrink_evals += 1
+            return
+        self.stats.generated += 1
+        if self.excluded(case):
+            self.stats.excluded_known += 1
+            return
+        self.stats.record(case, info)
+
+    def fail(self, case, msg, residual=None):
+        if self.excluded(case):
+            return False  # known class: not reported, machine run continues as a pass
+        size = len(json.dumps(case, default=str))
+        if not self.best or size <= self.best["size"]:
+            self.best.update(case=case, msg=msg, cls=self.oracle.classify(case), size=size, residual=residual)
+        if self.t_first_fail is None:
+            self.t_first_fail = time.time()
+        return True
+
+
+def _run_machine(prop_id, oracle, n_examples, seed_int, rounds, stats, best, local_known, deadline_ts):
+    import hypothesis
+    from hypothesis import HealthCheck, Phase, settings
+    from hypothesis.stateful import run_state_machine_as_test
+
+    hooks = _Hooks(oracle, stats, best, local_known, deadline_ts)
+    Machine = oracle.machine(hooks)
+    Machine = hypothesis.seed(derive_seed(seed_int, prop_id, oracle.name, rounds))(Machine)
+    try:
+        run_state_machine_as_test(
+            Machine,
+            settings=settings(
+                max_examples=n_examples,
+                stateful_step_count=oracle.machine_steps,
+                database=None,
+                deadline=None,
+                derandomize=False,
+                report_multiple_bugs=False,
+                phases=[Phase.generate, Phase.shrink],
+                suppress_health_check=list(HealthCheck),
+                print_blob=False,
+            ),
+        )
+    except Violation:
+        pass
+    except hypothesis.errors.Flaky:
+        pass
+    except hypothesis.errors.FlakyFailure:
+        pass
 
 
 # ----------------------------------------------------------------------------------
